@@ -7,8 +7,11 @@
    The environment: the instants at which process_spawning_cause assigns memory.idle_reset_time
    (essential changes), the instant the stopper is set, and an observation horizon.
 
-   Convention for simultaneous events (the harness drives the real coroutine the same way): an
-   environment input at instant t is visible to every check the timer makes at instant t.
+   Simultaneous events (the harness drives the real coroutine the same way): the stop and an EARLY essential
+   change at instant t are visible to every check the timer makes at instant t (they happen before the timer's
+   task step of that instant); a LATE essential change at instant t happens after the timer's task step of
+   that instant and is visible only to checks at instants > t.  The timer makes all its reads of one instant in
+   ONE task step (nothing in it suspends without time passing), so early/late is every possible order.
 
    Definitions only; lemmas are in Proofs/Timer.v. *)
 From Coq Require Import ZArith List Bool String.
@@ -33,7 +36,8 @@ Inductive outcome :=
 | OOk                      (* the function returns *)
 | OTemp (d : option Z)     (* raise TemporaryError(delay=d) *)
 | OPerm                    (* raise PermanentError *)
-| OArb.                    (* raise any other Exception *)
+| OArb                     (* raise any other Exception *)
+| OChild (d : option Z).   (* raise HandlerChildrenRetry(delay=d): unfinished sub-handlers (kopf.execute) *)
 
 Record entry := mkentry { e_dur : Z; e_plat : Z; e_out : outcome }.
 
@@ -41,12 +45,16 @@ Record env := mkenv {
   v_irt0    : Z;           (* memory.idle_reset_time when the timer is spawned *)
   v_resets  : list Z;      (* instants of `memory.idle_reset_time = loop.time()` *)
   v_stop    : option Z;    (* instant of stopper.set(...) *)
-  v_horizon : Z            (* observation horizon: a sleep that would end later is not followed *)
+  v_horizon : Z;           (* observation horizon: a sleep that would end later is not followed *)
+  v_late    : list Z       (* instants of essential changes that happen AFTER the timer's step of that instant *)
 }.
 
 (* memory.idle_reset_time as seen at instant t *)
+Definition foldv (vis : Z -> Z -> bool) (rs : list Z) (a t : Z) : Z :=
+  fold_left (fun acc r => if vis r t then Z.max acc r else acc) rs a.
+
 Definition irt (e : env) (t : Z) : Z :=
-  fold_left (fun acc r => if r <=? t then Z.max acc r else acc) (v_resets e) (v_irt0 e).
+  foldv Z.ltb (v_late e) (foldv Z.leb (v_resets e) (v_irt0 e) t) t.
 
 Definition stopped (e : env) (t : Z) : bool :=
   match v_stop e with Some s => s <=? t | None => false end.
@@ -95,6 +103,7 @@ Definition classify (c : cfg) (h : hst) (t : Z) (o : outcome) : verdict :=
           else if hits (c_retries c) (h_retries h + 1) then VFail
           else VRetry (Some (c_backoff c))
       end
+  | OChild d => VRetry d       (* `except HandlerChildrenRetry`: no look-ahead checks *)
   end.
 
 (* HandlerState.with_outcome at instant t *)
@@ -201,16 +210,20 @@ Definition pre_wait (fuel : nat) (c : cfg) (e : env) (now : Z) : list ev * wres 
   | None => ([], WGo now)
   end.
 
-(* `if state.done and not state[handler.id].failure: state = State.from_scratch()...`: the retry counters are
-   reset after a success only; a handler that failed for good keeps its state and is never selected again *)
-Definition reset_if_succeeded (h : hst) (now : Z) : hst :=
-  if finished h && negb (h_failure h) then fresh now else h.
+(* `if state is None or (state.done and not state[handler.id].failure): state = State.from_scratch()...`, executed
+   AFTER the idle wait (instant t): the state is created for the first cycle and re-created after a success only;
+   a retrying state and a state that failed for good are kept (the latter is never selected again).  Its `started`
+   -- the base of the handler's timeout -- is therefore the instant the run is due, not the instant idling began. *)
+Definition reset_state (h : option hst) (t : Z) : hst :=
+  match h with
+  | None => fresh t
+  | Some h => if finished h && negb (h_failure h) then fresh t else h
+  end.
 
 (* the main loop; one script entry per cycle *)
-Fixpoint loop (fuel : nat) (c : cfg) (e : env) (script : list entry) (now : Z) (h : hst) : list ev * final :=
+Fixpoint loop (fuel : nat) (c : cfg) (e : env) (script : list entry) (now : Z) (h : option hst) : list ev * final :=
   if stopped e now then ([], FStopped now)
   else
-    let h1 := reset_if_succeeded h now in
     match pre_wait fuel c e now with
     | (evs0, WEnd f) => (evs0, f)
     | (evs0, WGo t) =>
@@ -218,12 +231,12 @@ Fixpoint loop (fuel : nat) (c : cfg) (e : env) (script : list entry) (now : Z) (
         else match script with
              | [] => (evs0, FOut t)
              | en :: rest =>
-                 let '(inv, hend, h2) := exec c h1 t en in
+                 let '(inv, hend, h2) := exec c (reset_state h t) t en in
                  let y := mkcyc t inv hend (hend + Z.max 0 (e_plat en)) en (finished h2) (h_failure h2) (h_delayed h2) in
                  match post fuel c e y h2 with
                  | (evs1, WEnd f) => (evs0 ++ ECyc y :: evs1, f)
                  | (evs1, WGo t') =>
-                     let '(evs2, f) := loop fuel c e rest t' h2 in
+                     let '(evs2, f) := loop fuel c e rest t' (Some h2) in
                      (evs0 ++ ECyc y :: evs1 ++ evs2, f)
                  end
              end
@@ -231,10 +244,10 @@ Fixpoint loop (fuel : nat) (c : cfg) (e : env) (script : list entry) (now : Z) (
 
 Definition timer_run (fuel : nat) (c : cfg) (e : env) (spawn : Z) (script : list entry) : list ev * final :=
   match c_initial c with
-  | None => loop fuel c e script spawn (fresh spawn)
+  | None => loop fuel c e script spawn None
   | Some d =>
       match sleep e spawn d with
-      | Woke t => let '(evs, f) := loop fuel c e script t (fresh t) in (sleep_ev e spawn d :: evs, f)
+      | Woke t => let '(evs, f) := loop fuel c e script t None in (sleep_ev e spawn d :: evs, f)
       | PastHorizon => ([sleep_ev e spawn d], FHorizon spawn)
       end
   end.
@@ -257,14 +270,18 @@ Definition clear (e : env) (idle : option Z) (t : Z) : Prop :=
 Definition idle_ok (e : env) (idle : option Z) (now s : Z) : Prop :=
   now <= s /\ clear e idle s /\ forall t, now <= t < s -> ~ clear e idle t.
 
+(* the delay an error asks for: TemporaryError / HandlerChildrenRetry carry their own, an arbitrary exception
+   gets the handler's backoff; None = "no delay" (delay=None, or nothing to retry) *)
+Definition retry_delay (c : cfg) (o : outcome) : option Z :=
+  match o with
+  | OTemp d | OChild d => d
+  | OArb => Some (c_backoff c)
+  | OOk | OPerm => None
+  end.
+
 (* what a failed-but-retried run records as its `delayed` instant *)
 Definition expected_delayed (c : cfg) (y : cyc) : option Z :=
-  match e_out (y_en y) with
-  | OTemp (Some d) => Some (y_hend y + d)
-  | OTemp None => None
-  | OArb => Some (y_hend y + c_backoff c)
-  | _ => None
-  end.
+  match retry_delay c (e_out (y_en y)) with Some d => Some (y_hend y + d) | None => None end.
 
 Definition wf_cyc (c : cfg) (y : cyc) : Prop :=
   y_start y <= y_hend y /\ y_hend y <= y_pend y /\
@@ -290,6 +307,12 @@ Definition next_base (c : cfg) (e : env) (y : cyc) (b : Z) : Prop :=
     end
   else b = Z.max (y_pend y) (match y_delayed y with Some d => d | None => y_pend y end).
 
+(* is the user function entered by a cycle that starts with a fresh handler state (the first cycle, and every cycle
+   after a success)?  The strict checks of execute_handler_once on a state created at that very instant (runtime 0,
+   0 retries): always, unless the handler is declared with timeout <= 0 or retries <= 0. *)
+Definition run_allowed (c : cfg) : bool :=
+  negb (hits (c_timeout c) 0) && negb (hits (c_retries c) 0).
+
 Inductive chain (c : cfg) (e : env) : Z -> list cyc -> Prop :=
 | chain_nil : forall now, chain c e now []
 | chain_one : forall now y,
@@ -297,7 +320,9 @@ Inductive chain (c : cfg) (e : env) : Z -> list cyc -> Prop :=
     chain c e now [y]
 | chain_cons : forall now y b y2 ys,
     idle_ok e (c_idle c) now (y_start y) -> wf_cyc c y -> stopped e (y_start y) = false ->
-    next_base c e y b -> chain c e b (y2 :: ys) ->
+    next_base c e y b ->
+    (y_done y = true -> y_failed y = false -> y_inv y2 = run_allowed c) ->
+    chain c e b (y2 :: ys) ->
     chain c e now (y :: y2 :: ys).
 
 (* ---------------------------------------------------------------- comparison helpers for the harness *)
